@@ -78,6 +78,10 @@ CLAIMED = {
          "Exploration by runtime monitoring: in generated programs with workspace-unique names a probe `print(<strict prefix>)` is inserted as an unsaved edit at statement boundaries of every block (first statement, right after a declaration, last statement, on the line of `end`, inside nested functions/blocks, end of file); completion right after the prefix must offer every local, parameter and loop variable visible there per Lua's scoping and every workspace global with that prefix, and no local declared later or in a block that does not enclose the cursor.",
          "DON'T-CARE: a local inside its own declaration statement, the probe word itself, names that also occur as free (global) names, keywords/snippets/built-ins in the list. Probes inside function literals in for headers are finding C14-K1.",
          "DESIGN.md 3/C14"),
+ "C15": ("online monitor: member completion (typing flow) and member go-to-definition on annotated variables vs the transitive field set of a reference class-graph model (R-class)",
+         "Exploration by runtime monitoring: generated class hierarchies (up to 10 classes, up to 3 parents, diamonds, every 4th graph cyclic incl. cyclic aliases, classes split over files, class tables with methods and assigned members) and variables typed through a class, aliases of aliases, T[], table<K,V> and aliased arrays; go-to-definition on v.member must reach the ---@field line of the declaring (possibly inherited) class, and after editing the open document to end in `v.` completion with trigger '.' must return exactly the transitive field set plus the documented assigned members (superset for cyclic graphs); every query on cyclic graphs/aliases must return and the server must stay alive.",
+         "Field names are unique per class graph (no overriding), one definition per class name (duplicates are C09's). Union types are not asserted.",
+         "DESIGN.md 3/C15"),
 }
 
 PENDING_REASON = "check not built yet in this revision of /verif (work in progress; see DESIGN.md section 3 for the planned monitor)"
